@@ -406,4 +406,25 @@ non-null tangent -/
 example : mink (![1, 0, 0] : Fin 3 → ℚ) ![1, 0, 0] ≠ 0 ∧ mink (![1, 0, 0] : Fin 3 → ℚ) ![2, 1, 0] ≠ 0 := by
   simp [mink, dot, Fin.sum_univ_succ, Fin.tail]
 
+/-! ## statements added after the model-mutant round -/
+
+/-- what D16 / D17 did to EVERY cosine or sine of absolute value below one, negative ones included: writing it into an integer
+array truncates it towards zero (a floor would store `−1` for `cos 2 ≈ −0.416`) -/
+theorem integer_call_sites_truncate' (f32 : ℚ → ℚ) (v : ℚ) (h0 : -1 < v) (h1 : v < 1) :
+    castVal f32 .int64 v = 0 := by
+  simp only [castVal]
+  split_ifs with h
+  · have : ⌊v⌋ = 0 := Int.floor_eq_iff.2 ⟨by simpa using h, by simpa using h1⟩
+    rw [this]; simp
+  · have : ⌈v⌉ = 0 := Int.ceil_eq_iff.2 ⟨by simpa using h0, by push_neg at h; simpa using h.le⟩
+    rw [this]; simp
+
+/-- truncation towards zero is odd -/
+theorem castVal_int64_neg (f32 : ℚ → ℚ) (v : ℚ) : castVal f32 .int64 (-v) = - castVal f32 .int64 v := by
+  simp only [castVal]
+  rcases lt_trichotomy v 0 with h | h | h
+  · rw [if_pos (by linarith : (0 : ℚ) ≤ -v), if_neg (by linarith : ¬ (0 : ℚ) ≤ v), Int.floor_neg]; push_cast; ring
+  · subst h; simp
+  · rw [if_neg (by linarith : ¬ (0 : ℚ) ≤ -v), if_pos h.le, Int.ceil_neg]; push_cast; ring
+
 end GT.C12
